@@ -173,6 +173,13 @@ def r1_tables(ctx):
                     found.append((sw.subject[1], b2[1], bi))
                 elif b2[0] == 'const' and a[0] == 'call' and a[1].endswith('::len'):
                     found.append((sw.subject[1], b2[1], bi))
+            elif sw.kind == 'int':
+                # `match bytes.len() { 8 => .., _ => Err }` is the test `len != 8`
+                a = strip(sw.subject)
+                if (a[0] == 'other' and 'PtrMetadata' in str(a[1])) or (a[0] == 'call' and a[1].endswith('::len')):
+                    for v in set(sw.labels.values()):
+                        if isinstance(v, int):
+                            found.append(('Ne', v, bi))
         ok = any(o == op and c == const for o, c, bi in found)
         # and the failing edge returns an Err
         r.check(ok, 'len|load|' + what, f.file, '%s::load length test: %s (RFC: %s %d)' % (what, [(o, c) for o, c, _ in found], 'len <' if op == 'Lt' else 'len !=', const))
